@@ -45,6 +45,12 @@ RULE = ('histories of set_channel / set_measurement / rm_channel / register_prog
         'moved, outputs of two ids swapped, other transformation, extra output / marker, one of two outputs dropped) '
         'between registration and re-registration: identity stream, targeted-identity, exhaustive-identity (all histories '
         '<= 2 + 8% of 3 in quick, <= 3 + 35% of 4 in thorough over an 11-letter alphabet with two pooled objects).  '
+        'Round 4: targeted-multimask (one program reaching one acquisition device through more than one mask in four wiring '
+        'shapes; re-registration with fewer masks on a device that keeps participating), targeted-malformed (index = size in '
+        'both constructors, non-iterable arguments for new / wired names, non-channel element whose hash collides with a '
+        'wired channel), same Loop object again after a call that raised AFTER taking its measurements (unknown '
+        'measurement -> set_measurement -> retry; ProgramOverwriteException -> update=True), measurements attached to an '
+        'object between registrations.  '
         'Known finding vs VIOLATION is decided by Corr.check_framed in coqc.  Non-trivial = at least one registration returned '
         'normally and one later operation touched devices; distinct = canonical JSON of the case.')
 TRUSTED = [
@@ -59,15 +65,17 @@ TRUSTED = [
     'iteration order of Python sets / dicts inside register_program is not modelled: the channel order, measurement '
     'order and AWG upload order of each call are inputs of the model step; the harness picks an order that explains the '
     'recorded outcome (winner of several names wired to one output / mask), upload order is observed by wrapping upload',
-    'program.get_measurement_windows() is taken as "the program\'s own windows" (that function is property C02)',
+    '"the program\'s own windows" = Loop.get_measurement_windows() (property C02) of a structurally equal twin object '
+    'that is never handed to the setup (+ whatever the harness attached to both later); explicit `measurements=` if given',
     'Python semantics of dict/set/list indexing as mirrored in coq/C18/Model.v',
 ]
 ASSUMPTIONS = [
     'devices are DummyAWG / DummyDAC (the real drivers are not importable offline); device methods do not raise '
     'except DummyAWG.upload (ProgramOverwriteException)',
-    'a Loop object may be handed to several register_program calls (pool); "the program\'s own windows" of a call are the '
-    'windows the Loop object has when the call is made (register_program drops them from the Loop: a re-registered '
-    'object has none unless `measurements=` is given)',
+    'a Loop object may be handed to several register_program calls (pool); "the program\'s own windows" are everything '
+    'that was ever attached to that object - NOT what is left on it after the setup took the measurements out '
+    '(round 4: the old reading made the loss of windows on re-registration of the same object invisible; repaired in '
+    '/repo bc650d0)',
     'the property is evaluated on histories of calls that returned normally; calls that raised without any observable '
     'effect are skipped, after a call that raised with an effect the specification is no longer evaluated',
 ]
@@ -82,6 +90,15 @@ ERRS = {'TypeError': 'ETypeError', 'KeyError': 'EKeyError', 'ValueError': 'EValu
 
 class _Ctx:
     pass
+
+
+class _Collide:
+    """not a hardware channel, hashes like one (equality = identity)"""
+    def __init__(self, h):
+        self.h = h
+
+    def __hash__(self):
+        return self.h
 
 
 def _mk_program(pd):
@@ -185,6 +202,7 @@ def _run(case):
     trafo_ix = {id(f): k for k, f in trafos.items()}
     progs = {}           # id(Loop) -> tag  (objects kept alive in `keep`)
     keep = []
+    twins = {}           # id(Loop) -> structurally equal Loop that is never registered (keeps the measurements)
     pool = {}            # pool key -> Loop object that is handed to several register_program calls (object identity)
     chpool = {}          # (awg, index, marker, trafo) -> hardware channel object reused across calls (case['chpool'])
     cblog = []
@@ -285,8 +303,10 @@ def _run(case):
             if d.armed_program != d._armed_program or d.armed_program != sh_dac[i]['armed']:
                 raise ObservationMismatch('DAC %d: armed_program %r, _armed_program %r, told %r'
                                           % (i, d.armed_program, d._armed_program, sh_dac[i]['armed']))
-            if set(d._measurement_windows) != set(sh_dac[i]['wins']) or \
-                    any(d._measurement_windows[n] is not sh_dac[i]['wins'][n] for n in d._measurement_windows):
+            # Which programs the device holds must be what it was told; WHAT it holds per program is the observation the
+            # specification judges (a device may keep its own copy of the dict; one that merges instead of replacing -
+            # seed C18-5 - is a property violation, not an observation mismatch)
+            if set(d._measurement_windows) != set(sh_dac[i]['wins']):
                 raise ObservationMismatch('DAC %d holds windows for %r but was told %r'
                                           % (i, sorted(d._measurement_windows), sorted(sh_dac[i]['wins'])))
         ka = {s.awg for chans in setup.registered_channels().values() for s in chans}
@@ -376,7 +396,14 @@ def _run(case):
                     arg = mk_channel(a['ch'])
                 elif a['k'] == 'many':
                     arg = [mk_channel(c) for c in a['chs']]
-                    if a.get('junk'):
+                    if a.get('junk') == 'hash':
+                        # not a channel, but its hash collides with a hardware channel that is wired under another id
+                        # (or with the first channel of this call): set operations then ask _SingleChannel.__eq__
+                        other = [s for cid, chans in setup.registered_channels().items() if cid != IDS[op['id']] for s in chans]
+                        arg.insert(len(arg) // 2, _Collide(hash(other[0] if other else arg[0])))
+                    elif a.get('junk') == 'hashself':
+                        arg.insert(len(arg) // 2, _Collide(hash(arg[0])))
+                    elif a.get('junk'):
                         arg.insert(len(arg) // 2, 'not a channel')
                     if a.get('as_set'):
                         arg = set(arg)
@@ -399,15 +426,24 @@ def _run(case):
             elif k == 'register':
                 pd = op['prog']
                 if pd.get('obj') is not None and pd['obj'] in pool:
-                    program = pool[pd['obj']]          # the very same Loop object again (its measurements may have
-                    if progs[id(program)] != pd['tag']:   # been dropped by an earlier register_program)
+                    program = pool[pd['obj']]          # the very same Loop object again (register_program has taken
+                    if progs[id(program)] != pd['tag']:   # the measurements out of it)
                         raise RuntimeError('generator: pooled program object with two tags')
                 else:
                     program = _mk_program(dict(pd, _ids=IDS))
                     keep.append(program)
                     progs[id(program)] = pd['tag']
+                    # "the program's own windows" = everything that was ever attached to this object.  They are read off a
+                    # twin that is never handed to the setup (the setup strips the object it is given).
+                    twins[id(program)] = _mk_program(dict(pd, _ids=IDS))
                     if pd.get('obj') is not None:
                         pool[pd['obj']] = program
+                if op.get('attach'):
+                    # the user attaches further measurements to an object (possibly one the setup has stripped before)
+                    if pd.get('shape', 'leaf') != 'leaf' or pd.get('rep', 1) != 1:
+                        raise RuntimeError('generator: attach only for a leaf program played once (window order)')
+                    for target in (program, twins[id(program)]):
+                        target.add_measurements([('m%d' % n, b, l) for n, b, l in op['attach']])
                 first = next(program.get_depth_first_iterator())
                 chan_order = [id_index(c) for c in first.waveform.defined_channels]
                 kwargs = {}
@@ -416,7 +452,7 @@ def _run(case):
                     kwargs['measurements'] = meas
                     own = [[n, _wins((b, l))[0], _wins((b, l))[1]] for n, b, l in op['explicit']]
                 else:
-                    own = [[int(n[1:])] + _wins(v) for n, v in program.get_measurement_windows().items()]
+                    own = [[int(n[1:])] + _wins(v) for n, v in twins[id(program)].get_measurement_windows().items()]
                 if op.get('update'):
                     kwargs['update'] = True
                 if op.get('cb', True):
@@ -1096,6 +1132,8 @@ def identity_history(rng):
     def reg(name, d, update):
         cbn[0] += 1
         op = {'op': 'register', 'name': name, 'prog': dict(d), 'update': update, 'cbtag': 200 + cbn[0]}
+        if d.get('shape') == 'leaf' and d.get('rep', 1) == 1 and rng.random() < 0.12:
+            op['attach'] = [[rng.choice(sorted(t.meas)), rng.choice([0, 1, 2]), rng.choice([1, 2])] for _ in range(rng.randint(1, 2))]
         if rng.random() < 0.15:
             names = rng.sample(sorted(t.meas), rng.randint(0, 2))
             op['explicit'] = [[n, [rng.choice([0, 1, 2])] * k, [rng.choice([1, 2])] * k]
@@ -1177,6 +1215,7 @@ def targeted_identity():
     P = {'tag': 100, 'obj': 0, 'chans': [0, 1], 'meas': [[0, 0, 1], [1, 1, 1]], 'shape': 'leaf'}
     P2 = dict(P, tag=101, obj=1)                       # structurally equal, distinct object
     PA = {'tag': 102, 'obj': 2, 'chans': [0], 'meas': [[0, 0, 1]], 'shape': 'seq'}
+    PQ = dict(P, tag=103, obj=3, meas=[[0, 0, 1], [3, 1, 1]])     # uses a measurement name that is not wired yet
     n = [0]
 
     def reg(name, d, u=False, **kw):
@@ -1209,6 +1248,18 @@ def targeted_identity():
         [{'op': 'register', 'name': 0, 'prog': dict(P, meas=[[0, 0, 1], [3, 1, 1]]), 'update': False}, reg(0, dict(P, meas=[[0, 0, 1], [3, 1, 1]]))],
         # the program moves inside AND the wiring of an id it no longer uses changes
         [reg(0, P), set_ch(1, [[0, 2, False, 0]]), reg(0, PA, True), set_ch(0, [[0, 0, False, 1]], allow=True), reg(0, PA, True)],
+        # Round 4: "state left behind after a failed call the caller survives" = the Loop object without its measurements.
+        # The caller does what the exception asks for and registers the SAME object again.
+        [reg(0, PQ), {'op': 'set_measurement', 'name': 3, 'arg': {'k': 'many', 'masks': [2]}, 'allow': False}, reg(0, PQ), arm(0)],
+        [reg(0, PA), reg(0, P), reg(0, P, True), arm(0), rem(0)],                       # ProgramOverwriteException, then update
+        [{'op': 'rm_channel', 'id': 1}, reg(0, P), set_ch(1, [[0, 1, False, 0]]), reg(0, P), arm(0)],   # unknown channel
+        [reg(0, P, cb=False), reg(0, P), arm(0)],                                        # callback not callable
+        [reg(0, P), reg(0, P, True), reg(0, P, True), rem(0), reg(1, P), arm(1)],
+        # measurements attached to an object the setup already stripped / never saw
+        [reg(0, P), reg(0, P, True, attach=[[0, 2, 1]]), arm(0)],
+        [reg(0, P, attach=[[1, 0, 2]]), reg(0, P, True)],
+        [reg(0, P), reg(1, P, attach=[[0, 2, 1], [1, 3, 1]]), reg(0, P, True), rem(1)],
+        [reg(0, P, explicit=[[0, [0], [1]]]), reg(0, P, True), reg(0, P, True, explicit=[])],   # explicit first: nothing taken yet
     ]
     out = []
     for h in hs:
@@ -1220,6 +1271,91 @@ def targeted_identity():
                 c['chpool'] = True
             c['ops'] = [dict(o) for o in w] + [dict(o) for o in h]
             out.append(c)
+    return out
+
+
+def targeted_malformed():
+    """Round 4 (coverage audit): raising configuration calls that the random streams reach only by luck: marker / output
+    index = size (constructor raises), non-iterable arguments of set_measurement / set_channel for new and existing
+    names, a non-channel element whose HASH collides with a wired channel (set intersection then calls
+    _SingleChannel.__eq__ with a non-channel) - each followed by calls that show the state is as before"""
+    base = {'kind': 'hist', 'stream': 'targeted-malformed', 'awgs': [[2, 1], [1, 0]], 'ndacs': 1, 'masks': [[0, 0], [0, 1]]}
+    sm = lambda name, arg, allow=False: {'op': 'set_measurement', 'name': name, 'arg': arg, 'allow': allow}
+    P = {'tag': 1, 'chans': [0, 1], 'meas': [[0, 0, 1]], 'shape': 'leaf'}
+    reg = {'op': 'register', 'name': 0, 'prog': P, 'update': False}
+    junk = lambda cid, chs, kind, allow=False, as_set=False: dict(set_ch(cid, chs, allow, as_set), arg=dict(
+        set_ch(cid, chs, allow, as_set)['arg'], junk=kind))
+    tail = [set_ch(1, [[1, 0, False, 0]]), sm(0, {'k': 'many', 'masks': [0]}), reg, {'op': 'arm', 'name': 0},
+            {'op': 'remove', 'name': 0}]
+    hs = [
+        [set_ch(0, [[0, 0, False, 0]]),
+         {'op': 'set_channel', 'id': 1, 'arg': {'k': 'single', 'ch': [0, 1, True, 0]}, 'allow': False},      # marker index = num_markers
+         set_ch(1, [[1, 0, False, 0], [0, 1, True, 0]]), set_ch(1, [[0, 2, False, 0]]),                       # output index = num_channels
+         set_ch(0, [[0, 0, True, 0], [1, 0, True, 0]], allow=True),                                           # generator without markers
+         sm(1, {'k': 'noniter'}), sm(0, {'k': 'many', 'masks': [1]}), sm(0, {'k': 'noniter'}), sm(0, {'k': 'noniter'}, True),
+         {'op': 'set_channel', 'id': 0, 'arg': {'k': 'noniter'}, 'allow': False},
+         {'op': 'set_channel', 'id': 2, 'arg': {'k': 'noniter'}, 'allow': True}] + tail,
+        [set_ch(0, [[0, 0, False, 0]]), junk(1, [[1, 0, False, 0]], 'hash'), junk(1, [[1, 0, False, 0]], 'hash', allow=True),
+         junk(1, [[1, 0, False, 0], [0, 1, False, 0]], 'hashself', as_set=True), junk(1, [[0, 0, False, 0]], 'hash'),
+         junk(0, [[0, 0, False, 0]], 'hashself', allow=True, as_set=True), junk(0, [[0, 1, False, 0]], True)] + tail,
+    ]
+    out = []
+    for h in hs:
+        for ids, chp in ((None, False), ([0, 1, 2, 3, 4, 5, 6, 7], True)):
+            c = dict(base, ops=[dict(o) for o in h])
+            if ids is not None:
+                c['ids'] = ids
+            if chp:
+                c['chpool'] = True
+            out.append(c)
+    return out
+
+
+def targeted_multimask():
+    """Round 4 (seeds C18-5 / C18-6, caught before only through the exhaustive stream's wiring): one program reaches the
+    same acquisition device through MORE THAN ONE mask (two names on one card / one name with two masks on one card / a
+    name fanned out over two cards next to another mask on one of them / three masks on a card), and a re-registration
+    with FEWER masks on a card that keeps participating (by another program, by explicit measurements, by the same object
+    with explicit measurements)."""
+    masks = [[0, 0], [0, 1], [1, 0], [1, 1], [0, 2]]
+    base = {'kind': 'hist', 'stream': 'targeted-multimask', 'awgs': [[2, 1], [1, 0]], 'ndacs': 2, 'masks': masks}
+    chw = [set_ch(0, [[0, 0, False, 0]]), set_ch(1, [[1, 0, False, 0]])]
+    sm = lambda name, ms: {'op': 'set_measurement', 'name': name, 'arg': {'k': 'many', 'masks': ms}, 'allow': False}
+    wirings = [
+        [sm(0, [0]), sm(1, [1]), sm(2, [2])],                     # two names on card 0
+        [sm(0, [0, 1]), sm(1, [2]), sm(2, [3])],                  # one name, two masks on card 0
+        [sm(0, [0, 2]), sm(1, [1]), sm(2, [3])],                  # name 0 on both cards, name 1 next to it on card 0
+        [sm(0, [0]), sm(1, [1]), sm(2, [4, 3])],                  # three masks on card 0, name 2 also on card 1
+    ]
+    W = [[0, 0, 1], [1, 1, 2], [2, 2, 1]]                         # distinguishable windows per name
+    prog = lambda tag, names, chans=(0,), obj=None, shape='leaf': dict(
+        {'tag': tag, 'chans': list(chans), 'meas': [W[k] for k in names], 'shape': shape}, **({} if obj is None else {'obj': obj}))
+    P01, P0, P1, P012, PN = prog(1, [0, 1]), prog(2, [0]), prog(3, [1]), prog(4, [0, 1, 2], (0, 1), shape='seq'), prog(5, [])
+    P10, O01 = prog(6, [1, 0]), prog(7, [0, 1], obj=0)
+    reg = lambda n, p, u=False, **kw: dict({'op': 'register', 'name': n, 'prog': dict(p), 'update': u}, **kw)
+    arm, rem = (lambda k: {'op': 'arm', 'name': k}), (lambda k: {'op': 'remove', 'name': k})
+    hs = [
+        [reg(0, P01), arm(0)],
+        [reg(0, P10), reg(1, P012), arm(1)],
+        [reg(0, P01), reg(0, P0, True), arm(0)],
+        [reg(0, P01), reg(0, P1, True), arm(0), rem(0)],
+        [reg(0, P0), reg(0, P01, True), reg(0, P1, True)],
+        [reg(0, P01), reg(1, P1), reg(0, P0, True), arm(1), rem(1)],
+        [reg(0, P012), reg(0, P1, True), arm(0)],
+        [reg(0, P012), reg(0, P01, True), reg(0, PN, True)],
+        [reg(0, P01), reg(0, P01, True, explicit=[[1, [1], [2]]]), arm(0)],
+        [reg(0, O01), reg(0, O01, True, explicit=[[0, [0], [1]]]), reg(0, O01, True), arm(0)],
+        [reg(0, P012, explicit=[[0, [0, 4], [1, 1]], [1, [], []], [2, [2], [1]]]), reg(0, P012, True, explicit=[[2, [2], [1]]])],
+    ]
+    out = []
+    for w in wirings:
+        for h in hs:
+            for ids in (None, [0, 1, 2, 3, 4, 5, 6, 7]):
+                c = dict(base)
+                if ids is not None:
+                    c['ids'] = ids
+                c['ops'] = [dict(o) for o in chw + w] + [dict(o) for o in h]
+                out.append(c)
     return out
 
 
@@ -1263,7 +1399,7 @@ def exhaustive_identity(max_len, min_len=1):
 
 
 def gen_cases(rng, tier, ctx):
-    cases = targeted(rng) + targeted_identity()
+    cases = targeted(rng) + targeted_identity() + targeted_multimask() + targeted_malformed()
     n = {'quick': 1, 'thorough': 12}[tier]
     for _ in range(130 * n):
         cases.append(identity_history(rng))
@@ -1407,7 +1543,7 @@ def search_failing(ctx, broken):
     """specification oracle against the implementation on targeted + exhaustive + random histories"""
     import random
     rng = random.Random(12345)
-    pool = targeted(rng) + targeted_identity() + exhaustive(2) + exhaustive_small(3) + exhaustive_identity(2) + \
+    pool = targeted(rng) + targeted_identity() + targeted_multimask() + targeted_malformed() + exhaustive(2) + exhaustive_small(3) + exhaustive_identity(2) + \
         [scenario_history(rng) for _ in range(300)] + [identity_history(rng) for _ in range(300)] + \
         [rnd_history(rng, rng.randint(6, 15), clean=True) for _ in range(400)] + \
         [rnd_history(rng, rng.randint(6, 15), clean=False) for _ in range(200)]
@@ -1439,24 +1575,28 @@ MANIFEST = {
                   'every DAC exactly the wired masks with the program\'s own windows, participation records exact; for '
                   'covered names (wiring of a used name changed after registration) the copies sit exactly on the recorded '
                   'devices, and remove_program / register_program(update) / clear_programs with all recorded devices wired '
-                  'make the name clean again; armed => held for every name that is not lost.  Post-conditions for arm, '
-                  'remove, clear and update_parameters after any history, for clean AND (round 3) covered names (arm: every '
-                  'wired generator / device holding a copy is armed, other wired generators disarmed; update_parameters: '
-                  'exactly the wired holders).  The observation-level framed check that separates the known finding from '
-                  'a VIOLATION is a Coq function; its status tracker is proved equal to the specification\'s and its '
-                  'invariant part is proved to accept every view of the model after every history.  Under the round-1 '
-                  'guard (no re-wiring of used names) all names stay clean (guarded theorems kept).  The plain invariant '
-                  'without framing is refuted by a 3-call witness (known finding C18-rewire-stale).  Model tied to the '
-                  'code by a step-by-step correspondence check on the real objects after every call, with program objects '
-                  'and channel objects reused across calls.',
+                  'make the name clean again; armed => held for every name that is not lost.  Round 4: status per (name, '
+                  'device) through every history on BOTH sides: a name that is not lost keeps all routing clauses at every '
+                  'generator / acquisition device on which none of its names was re-wired since its last registration, even '
+                  'when it is covered because of a re-wiring elsewhere.  Post-conditions for arm, remove, clear and '
+                  'update_parameters after any history, for clean and covered names.  The observation-level framed check that '
+                  'separates the known finding from a VIOLATION is a Coq function; round 4: it is proved AS A WHOLE (status '
+                  'tracker, invariant clauses, post-condition clauses, call logs) to accept the model\'s own trace of every '
+                  'history of well-formed operations on a bench containing every recorded device.  Under the round-1 guard all '
+                  'names stay clean (guarded theorems kept).  The plain invariant without framing is refuted by a 3-call '
+                  'witness (known finding C18-rewire-stale).  Model tied to the code by a step-by-step correspondence check on '
+                  'the real objects after every call, with program objects and channel objects reused across calls; a '
+                  'program\'s own windows are read off a twin object that is never handed to the setup.',
     'level_note': 'Trusted: Coq kernel, harness, DummyAWG/DummyDAC as stand-ins for real drivers (set_volatile_parameters '
-                  'replaced by a recorder), set/dict iteration order inside register_program is an input of the model '
-                  'chosen to explain the observed outcome, Loop.get_measurement_windows (at call time) as the program\'s '
-                  'own windows.  Status is per (side, name), not per (device, name): only the single-step per-generator '
-                  'frame lemma is proved.  The post-condition clauses of check_framed are not proved complete against the '
-                  'model (only the invariant clauses are).  Two defects of the unchanged code were repaired in round 1 '
-                  '(825add7, a019130); C18-rewire-stale is a listed known finding (refusing to re-wire a used name would '
-                  'break the documented re-wire + update workflow).',
+                  'replaced by a recorder; devices never raise RuntimeError, so the warning branches of remove_program are '
+                  'not exercised), set/dict iteration order inside register_program is an input of the model chosen to '
+                  'explain the observed outcome, Loop.get_measurement_windows of a never-registered twin as the program\'s '
+                  'own windows.  The per-(name, device) status is proved for the model but not yet evaluated by the '
+                  'observation-level check (check_framed still classifies per (side, name)).  Three defects of the '
+                  'unchanged code were repaired (825add7, a019130 in round 1; bc650d0 in round 4: register_program forgot '
+                  'the windows it takes out of a Loop, so registering the same object again silently registered none); '
+                  'C18-rewire-stale is a listed known finding (refusing to re-wire a used name would break the documented '
+                  're-wire + update workflow).',
     'technique': 'Coq invariant proof over operation histories + correspondence check on HardwareSetup with dummy devices',
     'design_ref': 'DESIGN.md §5 C18',
 }
